@@ -218,6 +218,7 @@ def _run(prog, chk):
             inputs["IMPC[%d]" % k] = v
         model = succeed_model(prog, {"KSI_DataHash_getHashAlg": getalg, "KSI_DataHash_equals": equals, "memcmp": memcmp_,
                                      "KSI_DataHash_getImprint": getimprint, "KSI_DataHash_extract": extract,
+                                     "KSI_getHashLength": lambda I, p, n, a: (len(recv) - 1) if a[0] == 5 else 0,
                                      "KSI_getHashAlgorithmName": lambda I, p, n, a: Ptr("nm")}, fallback)
         I = BufInterp(fv, {"IMPR": len(recv), "IMPC": len(comp)}, inputs=inputs, call_model=inline_model(prog, helpers, fallback=model),
                       on_unknown="stop", prog=prog, loop_bound=8)
